@@ -3,6 +3,7 @@ module verifsim
 go 1.26
 
 require (
+	github.com/google/uuid v1.3.1
 	github.com/lindb/common v0.0.6
 	github.com/lindb/lindb v0.0.0
 	go.uber.org/zap v1.21.0
@@ -20,7 +21,6 @@ require (
 	github.com/gogo/protobuf v1.3.2 // indirect
 	github.com/golang/protobuf v1.5.4 // indirect
 	github.com/google/flatbuffers v23.3.3+incompatible // indirect
-	github.com/google/uuid v1.3.1 // indirect
 	github.com/grpc-ecosystem/go-grpc-middleware v1.3.0 // indirect
 	github.com/hashicorp/golang-lru/v2 v2.0.7 // indirect
 	github.com/jedib0t/go-pretty/v6 v6.4.6 // indirect
